@@ -106,6 +106,12 @@ def check(run, prog, tier):
                         r = strip(n2["R"])
                         if r.get("k") == "Bin" and r.get("op") in ("+", "*", "<<") and show(strip(n2["L"])) in show(r):
                             ok, why = True, "`%s` dominates the reallocation" % show(n2)
+                        # `cap = cap ? cap * 2 : 8`: grows when non-zero, starts at a positive constant otherwise
+                        if r.get("k") == "Cond" and show(strip(n2["L"])) == show(strip(r.get("c") or {})):
+                            a, b_ = strip(r["a"]), strip(r["b"])
+                            grows = a.get("k") == "Bin" and a.get("op") in ("+", "*", "<<") and show(strip(n2["L"])) in show(a) and (const_val(a["R"]) or 0) >= (2 if a.get("op") == "*" else 1)
+                            if grows and (const_val(b_) or 0) > 0:
+                                ok, why = True, "`%s` dominates the reallocation" % show(n2)[:60]
             # (3) exact fit
             if not ok:
                 s = strip(size)
